@@ -51,16 +51,20 @@ def takeThrough (p : Nat → Bool) : List Nat → List Nat
   | [] => []
   | x :: xs => if p x then [x] else x :: takeThrough p xs
 
-/-- locator-driven inventory on the active chain `chain` (root first, `chain[h]` has height `h`):
-    `known` = ids present in the index.  Empty locator: just the stop block when known. Otherwise
-    the blocks after the first locator entry on the active chain (else after the root),
-    through the stop block when it is among them, at most `max`. -/
+/-- the blocks of the active chain `chain` (root first) that follow the first locator entry found
+    on it; the blocks after the root when no entry is on it -/
+def afterStart (chain : List Nat) (locator : List Nat) : List Nat :=
+  match locator.find? (fun x => chain.contains x) with
+  | some s => (chain.dropWhile (· != s)).drop 1
+  | none => chain.drop 1
+
+/-- locator-driven inventory on the active chain `chain` (root first): `known` = ids present in
+    the index.  Empty locator: just the stop block when known.  Otherwise the blocks that follow the
+    first locator entry found on the active chain (the blocks after the root when none is), up to
+    and including the stop block when it is among them, at most `max`. -/
 def locate (chain : List Nat) (known : Nat → Bool) (locator : List Nat) (stop : Nat) (max : Nat) : List Nat :=
   if locator = [] then (if known stop then [stop] else [])
   else
-    let start := match locator.find? (fun x => chain.contains x) with
-      | some s => chain.idxOf s
-      | none => 0
-    (takeThrough (· == stop) (chain.drop (start + 1))).take max
+    (takeThrough (· == stop) (afterStart chain locator)).take max
 
 end BV.C17.Spec
